@@ -1291,6 +1291,8 @@ impl WriteTransaction {
             if self.dirty.load(Ordering::Acquire) {
                 return Err(SavepointError::InvalidSavepoint);
             }
+            #[cfg(redb_verif)]
+            crate::verif::pause("ephemeral_savepoint.after_dirty_check");
             self.allocate_savepoint()?
         };
         #[cfg(redb_verif)]
